@@ -238,6 +238,12 @@ def run_kani_group(root, plan, names, snap, sd, prop, tier):
                 rec["status"] = "no-verdict"
             elif real_fail:
                 pb = playback(kdir, target_dir, h, units[u])
+                native_line = None
+                for pl in pb.get("panic", []) or []:
+                    mm = re.match(r"(src/[\w/]+\.rs):(\d+):", pl)
+                    if mm:
+                        native_line = (mm.group(1), mm.group(2))
+                        break
                 for c in real_fail[:4]:
                     in_harness = "verif_kani" in c["loc"] or "verif_kani" in c["name"]
                     kind = "post" if in_harness else ("overflow" if "overflow" in c["desc"] else "panic")
@@ -249,6 +255,9 @@ def run_kani_group(root, plan, names, snap, sd, prop, tier):
                                 c["loc"] = c["loc"] + f" [lifted closure; repository line {o + (ln - a)}]"
                                 line = re.search(r"()(?:)repository line (\d+)", c["loc"])
                                 line = re.search(r"repository line ()(\d+)", c["loc"])
+                    if native_line and not in_harness and not re.search(r"repository line", c["loc"]) and "src/" not in c["loc"].split(" in function")[0]:
+                        c["loc"] = c["loc"] + f" [native panic at {native_line[0]}:{native_line[1]}]"
+                        line = re.search(r"native panic at [^:]+:()(\d+)", c["loc"])
                     r["failures"].append({
                         "obligation": f"{units[u]['file']}::{h.get('target', h['name'])}::{kind}@{(line.group(line.lastindex) if line else 0)}[{h['name']}]",
                         "kind": kind, "fn": f"{units[u]['file']}::{h.get('target', '')}", "fn_tags": h["tags"], "tags": h["tags"],
